@@ -43,10 +43,15 @@ package taskctl
 //@   safety
 //@   requires [nonnil] s != nil
 //@   modifies nothing
+// what the listener (the pipeline runner's HandleStageChange) was last told about a stage: a ghost snapshot of the status,
+// taken where the injected listener is called
+//@ ghost $toldStatus array Int
 //@ func (*Scheduler).notifyStageChange
 //@   safety
 //@   requires [nonnil] s != nil
-//@   modifies nothing
+//@   at call field onStageChange#1: ghost $toldStatus[stage] := stage.Status
+//@   ensures  [C08.told] s.onStageChange != nil ==> $toldStatus[stage] == stage.Status
+//@   modifies $toldStatus@[stage]
 //@ func checkStageCondition
 //@   trusted runs an external command (os/exec); no access to scheduler state
 //@   modifies nothing
@@ -66,6 +71,7 @@ package taskctl
 //@   assumes  [stage] stage != nil
 //@   ensures  [C08.stageVerdict] (stage.Status == scheduler.StatusDone || stage.Status == scheduler.StatusError) && (stage.Status == scheduler.StatusError ==> !stage.AllowFailure && lastErr != nil)
 //@   ensures  [C08.allowFailureKeepsVerdict] stage.AllowFailure ==> lastErr == old(lastErr) && stage.Status == scheduler.StatusDone
+//@   ensures  [C08.stageAnnounced] s.onStageChange != nil ==> $toldStatus[stage] == stage.Status
 
 //@ func (*Scheduler).Schedule
 //@   trusted sequential skeleton only: the stage goroutines run concurrently with the loop; for callers the only fact used is that the call returned. The body obligations below (launch guard, no launch after an observed cancel, join before return) ARE proved.
@@ -82,6 +88,8 @@ package taskctl
 //@   at call UpdateStatus#3: ghost $statusJustified := $statusJustified + 1
 //@   loop 1 invariant [C08.statusAccounted] $statusStores == $statusJustified
 //@   loop 2 invariant [C08.statusAccounted] $statusStores == $statusJustified
+//@   loop 1 invariant [C08.loopAnnounced] s.onStageChange != nil ==> forall x *scheduler.Stage :: x.Status == old(x.Status) || x.Status == scheduler.StatusCanceled || $toldStatus[x] == x.Status
+//@   loop 2 invariant [C08.loopAnnounced] s.onStageChange != nil ==> forall x *scheduler.Stage :: x.Status == old(x.Status) || x.Status == scheduler.StatusCanceled || $toldStatus[x] == x.Status
 //@   assumes  [ghostInit2] $statusStores == $statusJustified
 //@   at go (*Scheduler).Schedule$1#1: assert [C02.launchGuard] status == scheduler.StatusWaiting && $lastReady && stage.Status == scheduler.StatusRunning
 //@   at go (*Scheduler).Schedule$1#1: assert [C04.notAfterCancel] $selfCancel || s.cancelled != 1
@@ -136,7 +144,7 @@ package taskctl
 //@   at call Cancel#1: assert [C04.flagFirst] s.cancelled == 1
 //@   ensures  [C04.flag] s.cancelled == 1
 
-//@ property C08: taskctl.(*Scheduler).Schedule/assert[C08.*] taskctl.(*Scheduler).Schedule/loop*/inv-*[C08.*] taskctl.checkStatus/*
+//@ property C08: taskctl.(*Scheduler).notifyStageChange/ensures* taskctl.(*Scheduler).Schedule/assert[C08.*] taskctl.(*Scheduler).Schedule/loop*/inv-*[C08.*] taskctl.checkStatus/*
 //@ property C02: taskctl.checkStatus/ensures[C02.*] taskctl.checkStatus/loop* taskctl.(*Scheduler).Schedule/assert[C02.*] taskctl.(*Scheduler).Schedule/loop*
 //@ property C04: taskctl.(*Scheduler).Schedule/assert[C04.*] taskctl.(*Scheduler).Schedule/loop* taskctl.(*Scheduler).Cancel/* taskctl.(*Scheduler).Canceled/ensures*
 //@ property C01: taskctl.(*Scheduler).Schedule/assert[C01.*]
